@@ -98,8 +98,8 @@ func DQ(s string) *Node { return &Node{Kind: ScalarKind, Style: DoubleQ, Lines: 
 func Raw(s string) *Node {
 	return &Node{Kind: RawKind, Raw: s}
 }
-func Map(pairs ...Pair) *Node { return &Node{Kind: MapKind, Pairs: pairs} }
-func Seq(items ...*Node) *Node { return &Node{Kind: SeqKind, Items: items} }
+func Map(pairs ...Pair) *Node   { return &Node{Kind: MapKind, Pairs: pairs} }
+func Seq(items ...*Node) *Node  { return &Node{Kind: SeqKind, Items: items} }
 func KV(k string, v *Node) Pair { return Pair{Key: P(k), Val: v} }
 
 // Emitter -------------------------------------------------------------------
